@@ -278,6 +278,7 @@ class RvExec:
                     if 'Instruction' in (d_.get('ty') or '') and '*' not in (d_.get('ty') or ''):
                         for fld, kb in self.fields.items():
                             env['%s.%s' % (d_['name'], fld)] = kb
+        env.update(getattr(self, 'env_keys', {}))
         ev = KBEval(self.F, env, 0, self.overrides)
         self._stmt(f, f['body'], ev, depth)
 
@@ -360,6 +361,16 @@ class RvExec:
                     raise AnalysisBroken('RV-HSEM: emit of a block at %s' % loc(top, f))
                 w = ev.ev(a)
                 self.words.append((ti[0] // 8, w, loc(top, f)))
+                return
+            if nm == 'memcpy' and len(top.get('a', [])) == 3 and val(top['a'][2]) in (2, 4):
+                src_ = strip_all(top['a'][1])
+                while src_['k'] == 'Cast':
+                    src_ = strip_all(src_['e'])
+                if src_['k'] == 'Un' and src_.get('op') == '&' and strip_all(src_['e'])['k'] == 'Ref' and strip_all(src_['e']).get('id') in ev.env:
+                    n_ = val(top['a'][2])
+                    self.words.append((n_, ev.env[strip_all(src_['e'])['id']].resize(8 * n_, False), loc(top, f)))
+                    return
+            if nm == 'memcpy' and getattr(self, 'ignore_memcpy', False):
                 return
             fn_ = top.get('fn')
             if fn_ and self.F.has_func(fn_):
@@ -779,3 +790,135 @@ def FI_const(ctx, q):
     if v is None:
         raise AnalysisBroken('constant %s not found' % q)
     return v
+
+
+# ---------------------------------------------------------------------------------------------------------------------------
+# RVV dataset-init generator: SuperscalarHash instructions as vector operations on v0..v7
+
+class VMachine(Machine):
+    """v0..v7 hold r0..r7 (one 64-bit element per item, the same term in every lane); x registers as in Machine"""
+
+    def __init__(self):
+        Machine.__init__(self, [])
+        self.v = {i: atom(('reg', i)) for i in range(8)}
+        self.x[15] = atom(('litptr',))
+
+    def vget(self, n):
+        return self.v.get(n, atom(('undef', 100 + n)))
+
+    def step32(self, w, where):
+        from rules import x86hsem as X
+        opc = w & 0x7f
+        if opc == 0x57:
+            f3, f6, vm = (w >> 12) & 7, w >> 26, (w >> 25) & 1
+            vd, vs1, vs2 = (w >> 7) & 31, (w >> 15) & 31, (w >> 20) & 31
+            if not vm:
+                raise NotInteger('%#010x is a masked vector operation' % w)
+            a = self.vget(vs2)
+            if f3 in (0, 2):
+                b = self.vget(vs1)
+            elif f3 in (4, 6):
+                b = self.get(vs1)
+            elif f3 == 3:
+                b = const(vs1) if f6 in (0x25, 0x28, 0x29, 0x14, 0x15) else const(sx(vs1, 5))
+            else:
+                raise AnalysisBroken('RVV-SS-HSEM: vector word %#010x at %s is outside the decoded subset' % (w, where))
+            opi = {0x00: ('vadd', add), 0x02: ('vsub', sub), 0x0B: ('vxor', xor), 0x0A: ('vor', orr), 0x09: ('vand', andd), 0x25: ('vsll', sllv), 0x28: ('vsrl', srlv), 0x14: ('vror', ror)}
+            opm = {0x25: ('vmul', mul), 0x27: ('vmulh', lambda p, q: hi('smulh', p, q)), 0x24: ('vmulhu', lambda p, q: hi('umulh', p, q))}
+            tab = opi if f3 in (0, 3, 4) else opm
+            if f6 not in tab:
+                raise AnalysisBroken('RVV-SS-HSEM: vector word %#010x at %s is outside the decoded subset' % (w, where))
+            if f6 == 0x14 and f3 == 3:
+                b = const(vs1 | (((w >> 26) & 1) << 5))
+            nm, fn = tab[f6]
+            self.v[vd] = fn(a, b)
+            return '%s.%s v%d' % (nm, {0: 'vv', 2: 'vv', 3: 'vi', 4: 'vx', 6: 'vx'}[f3], vd)
+        if opc == 0x03 and ((w >> 12) & 7) == 3:
+            rd, rs1 = (w >> 7) & 31, (w >> 15) & 31
+            self.put(rd, X.ld64(add(self.get(rs1), const(sx(w >> 20, 12)))))
+            return 'ld'
+        return Machine.step32(self, w, where)
+
+
+@memoised('RVV-SS-HSEM')
+def rule_rvv_ss_hsem(ctx, R):
+    if STRICT_FAMILY:
+        R.note('rule_rvv_ss_hsem skipped: RXVERIF_STRICT_FAMILY=1')
+        return
+    from rules import x86hsem as X
+    F, hs = jit.handlers(ctx, 'rvv')
+    R.rule('RVV-SS-HSEM', 'for each SuperscalarHash instruction kind except IMUL_RCP the words generateDatasetInitVectorRV64 emits, given the meaning of the RVV arithmetic instructions on v0..v7 (one term per register, the same in every lane) '
+           'and of the scalar helpers (li / lui / addiw), compute what specification Table 6.1.1 prescribes and change no other register; every dst x src the generator can produce, every rotation count, boundary constants', min_instances=500)
+    R.saw(config='K3', unit='src/jit_compiler_rv64_vector.cpp')
+    gs = [f for f in F.in_file('jit_compiler_rv64_vector.cpp') if f['name'] == 'generateDatasetInitVectorRV64']
+    if len(gs) != 1:
+        raise AnalysisBroken('RVV-SS-HSEM: generateDatasetInitVectorRV64 not found')
+    g = gs[0]
+    R.saw(fn=g['q'])
+    loops = [x for x in astq.walk(g['body']) if x['k'] in ('For', 'While') and astq.is_node(x.get('b')) and x['b']['k'] == 'Compound' and any(y['k'] == 'Switch' for y in x['b']['s'])]
+    if len(loops) != 1:
+        raise AnalysisBroken('RVV-SS-HSEM: the loop that holds the switch over the instruction kind was not found')
+    body = loops[0]['b']
+    # the instruction fields are read through an expression like programs[i].programBuffer[j].dst: find the show() strings of those member reads
+    keys = {}
+    for x in astq.walk(body):
+        if x['k'] == 'Mem' and x.get('m') in ('dst', 'src', 'mod', 'imm32', 'opcode') and 'Instruction' in (x.get('cls') or ''):
+            keys[x['m']] = show(x)
+    if set(keys) != {'dst', 'src', 'mod', 'imm32', 'opcode'}:
+        raise AnalysisBroken('RVV-SS-HSEM: instruction field reads not found (%s)' % sorted(keys))
+    pseudo = dict(g, params=[], body=body)
+    types = {k: v for k, v in F.enum('randomx::SuperscalarInstructionType').items() if k not in ('COUNT', 'INVALID')}
+    where = '%s:%d' % (g['file'], g['line'])
+    n = 0
+    cases = []
+    for name, d, s_, sh, imm in X.ss_cases(types):
+        if name == 'IMUL_RCP':
+            continue
+        if name == 'IROR_C':
+            continue
+        cases.append((name, d, s_, sh, imm))
+    for d in range(8):
+        for c in range(1, 64):
+            if d in (0, 5) or c in (1, 31, 32, 33, 63):
+                cases.append(('IROR_C', d, d, 0, c))
+    for name, d, s_, sh, imm in cases:
+        n += 1
+        ex = RvExec(F, {}, {})
+        ex.ignore_memcpy = True
+        ex.env_keys = {keys['dst']: KB.const(8, d), keys['src']: KB.const(8, s_), keys['mod']: KB.const(8, sh << 2), keys['imm32']: KB.const(32, imm), keys['opcode']: KB.const(8, types[name])}
+        ex.run(pseudo, [])
+        m = VMachine()
+        tr, bad = [], None
+        if not ex.words:
+            bad = 'nothing is emitted'
+        for size, w, wh in ex.words:
+            v = w.value()
+            if v is None:
+                raise AnalysisBroken('RVV-SS-HSEM: a word emitted at %s is not constant (%s)' % (wh, w.hexpat()))
+            try:
+                tr.append(m.step16(v, wh) if size == 2 else m.step32(v, wh))
+            except NotInteger as e:
+                bad = 'after `%s` the emitter produces %s' % (' ; '.join(tr), e)
+                break
+        if bad is None:
+            exp = X.ss_expected(name, d, s_, sh, imm)
+            for i in range(8):
+                g_, e_ = m.vget(i), exp[i]
+                if g_ != e_:
+                    differs = None
+                    for vals in T.VALUATIONS:
+                        a_, b_ = T.term_eval(g_.canon(), vals), T.term_eval(e_.canon(), vals)
+                        if a_ != b_:
+                            differs = (a_, b_)
+                            break
+                    if differs is None:
+                        raise AnalysisBroken('RVV-SS-HSEM: %s dst=r%d src=r%d: v%d is %s, the specification says %s; equivalence undecided' % (name, d, s_, i, T.term_show(g_, None), T.term_show(e_, None)))
+                    bad = 'v%d = %s after `%s` (Table 6.1.1: %s); e.g. the code gives %#x, the specification %#x' % (i, T.term_show(g_, None), ' ; '.join(tr), T.term_show(e_, None), differs[0], differs[1])
+                    break
+        inst = 'rvv superscalar %s dst=r%d src=r%d%s imm32=%#x' % (name, d, s_, ' shift=%d' % sh if name == 'IADD_RS' else '', imm)
+        if bad:
+            R.violation(inst, where, expected='registers as in specification Table 6.1.1', found=bad)
+        else:
+            R.ok(inst, where)
+    if n < 500:
+        raise AnalysisBroken('RVV-SS-HSEM: only %d cases evaluated' % n)
